@@ -316,7 +316,8 @@ theorem mkD_good (h : Hasher) (c d : Pos) (mv : List Char) (ep : Point) (hg : Go
     rules allow in two respects: a pawn moving diagonally onto an empty square captures an enemy pawn
     standing beside it (en passant), and a five-character move is made by a pawn of the side to move -/
 theorem makeMove_good (h : Hasher) (p p' : Pos) (mv : List Char) (hg : Good h p)
-    (hcap : ∀ sp ep : Point, ∀ piece : Piece, p.board.get sp.row sp.col = .full piece → piece.kind = .pawn →
+    (hcap : ∀ (s1 s2 : List Char) (sp ep : Point) (piece : Piece), byteSlice mv 0 2 = some s1 → byteSlice mv 2 4 = some s2 →
+      parsePoint? s1 = some sp → parsePoint? s2 = some ep → p.board.get sp.row sp.col = .full piece → piece.kind = .pawn →
       sp.col ≠ ep.col → p.board.get ep.row ep.col = .empty → p.board.get sp.row ep.col = .full ⟨p.toMove.opp, .pawn⟩)
     (hpromo : ∀ sp : Point, ∀ piece : Piece, byteLen mv = 5 → p.board.get sp.row sp.col = .full piece →
       (∃ s1, byteSlice mv 0 2 = some s1 ∧ parsePoint? s1 = some sp) → piece = ⟨p.toMove, .pawn⟩)
@@ -333,7 +334,7 @@ theorem makeMove_good (h : Hasher) (p p' : Pos) (mv : List Char) (hg : Good h p)
         have hb0 : Good h (p.unsetEp h) := ⟨by rw [unsetEp_board]; exact hg.1, keyOK_unsetEp h p hg.2⟩
         simp only [unsetEp_board] at hpiece
         obtain ⟨hgA, htA, hbA⟩ := mkA_good h (p.unsetEp h) sp ep piece hb0 (by simp) hspo hepo
-          (by simp only [unsetEp_board, unsetEp_toMove]; exact hcap sp ep piece hpiece)
+          (by simp only [unsetEp_board, unsetEp_toMove]; exact hcap s1 s2 sp ep piece hs1 hs2 hsp hep hpiece)
         have hgB := mkB_good h _ mv hgA
         rw [mkCore_eq] at hm
         -- the board before move_piece still holds `piece` on sp
